@@ -108,9 +108,16 @@ def run_integral(mods, ref, field, limit, use_volfrac, via, ctx, canary=False, p
     obl = Obl(ctx)
     what = 'volume_integral(%r, limit_level=%r, use_volfrac=%r) via %s' % (field, limit, use_volfrac, via)
     got = None
-    with patch.Patched(mods, fs), common.quiet() as buf:
+    sched = None
+    if via.startswith('cpus'):
+        # the machine: a host that reports that many CPUs (os.cpu_count / multiprocessing.cpu_count follow the schedule's worker
+        # count, unsized pools have that many workers); the integral must not depend on it
+        from symx import pool as _pool
+        sched = _pool.Schedule('identity', workers=int(via[4:]))
+        what += ' on a host with %s CPUs' % via[4:]
+    with patch.Patched(mods, fs, schedule=sched), common.quiet() as buf:
         try:
-            if via == 'reader':
+            if via == 'reader' or via.startswith('cpus'):
                 pck = PlotfileCooker('plt', limit_level=limit, ghost=True)
                 got = pestle.volume_integral(pck, field, use_volfrac=use_volfrac)
             elif via == 'argument':
@@ -195,10 +202,17 @@ def run_case(case):
                     if via == 'history' and (ref.nlev < 2 or limit == 0):
                         continue
                     runs.append((field, limit, vf, via))
+    # hosts with other CPU counts: counts that do not divide the number of boxes of some level (work split per CPU must lose no box)
+    nbs = [len(b) for b in ref.boxes]
+    ws = [w for w in (2, 3, 5, 7) if any(n > w and n % w for n in nbs)][:2] or [2]
+    cpu_runs = [(ref.fields[0], None, 'volFrac' in ref.fields, 'cpus%d' % w) for w in ws]
+    if ref.nlev > 2:
+        cpu_runs.append((ref.fields[0], ref.nlev - 2, False, 'cpus%d' % ws[0]))
+    runs += cpu_runs
     if case.get('wide'):
         # several hundred boxes on the refined level: box numbers beyond 127 and 255 in the occupancy map
         prior_ref = None
-        runs = [(ref.fields[0], None, False, 'reader'), (ref.fields[0], 1, 'volFrac' in ref.fields, 'argument'), (ref.fields[0], 0, False, 'reader')]
+        runs = cpu_runs + [(ref.fields[0], None, False, 'reader'), (ref.fields[0], 1, 'volFrac' in ref.fields, 'argument'), (ref.fields[0], 0, False, 'reader')]
     for field, limit, vf, via in runs:
         def path(ctx, field=field, limit=limit, vf=vf, via=via):
             return run_integral(mods, ref, field, limit, vf, via, ctx, prior_ref=prior_ref)
@@ -245,7 +259,14 @@ def make_replay(ref, v):
     ref.write_symfs(fs, '/work/plt')
     exp = integral_expected(ref, field, limit, vf)
     expv = float(val(exp)) if core.is_sym(exp) else float(exp)
-    if via == 'reader':
+    if via.startswith('cpus'):
+        w = int(via[4:])
+        run = ("import multiprocessing\nos.cpu_count = lambda: %d\nif hasattr(os, 'process_cpu_count'):\n    os.process_cpu_count = lambda: %d\n"
+               "if hasattr(os, 'sched_getaffinity'):\n    os.sched_getaffinity = lambda pid=0: set(range(%d))\n" % (w, w, w) +
+               "from amr_kitchen import PlotfileCooker\nfrom amr_kitchen.pestle.pestle import volume_integral\nimport contextlib, io\n"
+               "with contextlib.redirect_stdout(io.StringIO()), contextlib.redirect_stderr(io.StringIO()):\n"
+               "    RESULT = volume_integral(PlotfileCooker(os.path.join(IN, 'plt'), limit_level=%r, ghost=True), %r, use_volfrac=%r)\n" % (limit, field, vf))
+    elif via == 'reader':
         run = ("from amr_kitchen import PlotfileCooker\nfrom amr_kitchen.pestle.pestle import volume_integral\nimport contextlib, io\n"
                "with contextlib.redirect_stdout(io.StringIO()), contextlib.redirect_stderr(io.StringIO()):\n"
                "    RESULT = volume_integral(PlotfileCooker(os.path.join(IN, 'plt'), limit_level=%r, ghost=True), %r, use_volfrac=%r)\n" % (limit, field, vf))
